@@ -442,11 +442,17 @@ func runC03(t *testing.T, seed int64, n int, out *Out) {
 			runPowCase(sdkmath.LegacyMustNewDecFromStr(be[0]), sdkmath.LegacyMustNewDecFromStr(be[1]), "boundary", out, stats)
 		}
 	}
+	for _, c := range boundaryOracleCases(r) {
+		runOracleCase(ctx, c, out, stats)
+	}
 	if boundaryOnly {
 		// more seeded variations of the boundary families instead of the uniform stream
 		for i := 0; i < n/400+1; i++ {
 			for _, c := range boundarySwapCases(r, false) {
 				runSwapCase(ctx, c, out, stats)
+			}
+			for _, c := range boundaryOracleCases(r) {
+				runOracleCase(ctx, c, out, stats)
 			}
 		}
 	} else {
@@ -454,10 +460,268 @@ func runC03(t *testing.T, seed int64, n int, out *Out) {
 			if i%5 == 4 {
 				b, e := randPowCase(r)
 				runPowCase(b, e, "rand", out, stats)
+			} else if i%5 == 3 || i%5 == 1 {
+				runOracleCase(ctx, randOracleCase(r), out, stats)
 			} else {
 				runSwapCase(ctx, randSwapCase(r), out, stats)
 			}
 		}
 	}
 	out.Line(map[string]any{"t": "stats", "dist": stats})
+}
+
+// ---- oracle pools: SwapOutAmtGivenIn / SwapInAmtGivenOut with UseOracle = true ----
+
+type oAsset struct {
+	amount, weight, acc, snap *big.Int
+	ext, price                sdkmath.LegacyDec
+}
+
+type oCase struct {
+	fn     string // oout | oin
+	stream string
+	a      [2]oAsset
+	iIn    int
+	amt    *big.Int
+	fee    sdkmath.LegacyDec
+	exponent, multiplier, portion, threshold, perpFactor sdkmath.LegacyDec
+}
+
+func (a oAsset) arr() []string {
+	return []string{a.amount.String(), a.weight.String(), a.ext.BigInt().String(), a.price.BigInt().String(), a.acc.String(), a.snap.String()}
+}
+
+func mkOraclePool(c *oCase, snapshot bool) ammtypes.Pool {
+	denoms := []string{denomX, denomY}
+	assets := make([]ammtypes.PoolAsset, 2)
+	tw := sdkmath.ZeroInt()
+	for i := 0; i < 2; i++ {
+		amt := c.a[i].amount
+		if snapshot {
+			amt = c.a[i].snap
+		}
+		assets[i] = ammtypes.PoolAsset{Token: sdk.Coin{Denom: denoms[i], Amount: sdkmath.NewIntFromBigInt(amt)}, Weight: sdkmath.NewIntFromBigInt(c.a[i].weight), ExternalLiquidityRatio: c.a[i].ext}
+		tw = tw.Add(assets[i].Weight)
+	}
+	return ammtypes.Pool{
+		PoolId:      1,
+		Address:     ammtypes.NewPoolAddress(1).String(),
+		PoolParams:  ammtypes.PoolParams{SwapFee: c.fee, UseOracle: true, FeeDenom: denomY},
+		TotalShares: sdk.NewCoin("amm/pool/1", sdkmath.NewInt(1_000_000_000_000_000_000).MulRaw(100)),
+		PoolAssets:  assets,
+		TotalWeight: tw,
+	}
+}
+
+func runOracleCase(ctx sdk.Context, c *oCase, out *Out, stats map[string]int) {
+	pool := mkOraclePool(c, false)
+	snap := mkOraclePool(c, true)
+	denoms := []string{denomX, denomY}
+	acc := accStub{denoms: denoms, amts: []sdkmath.Int{sdkmath.NewIntFromBigInt(c.a[0].acc), sdkmath.NewIntFromBigInt(c.a[1].acc)}}
+	orc := oracleStub{denoms: denoms, prices: []sdkmath.LegacyDec{c.a[0].price, c.a[1].price}}
+	params := ammtypes.DefaultParams()
+	params.WeightBreakingFeeExponent = c.exponent
+	params.WeightBreakingFeeMultiplier = c.multiplier
+	params.WeightBreakingFeePortion = c.portion
+	params.ThresholdWeightDifference = c.threshold
+	inDenom, outDenom := denoms[c.iIn], denoms[1-c.iIn]
+	var amount sdkmath.Int
+	var slip, slipAmt, bonus, oracleAmt sdkmath.LegacyDec
+	kind, text := guard(func() error {
+		var coin sdk.Coin
+		var err error
+		if c.fn == "oout" {
+			tokens := sdk.Coins{sdk.Coin{Denom: inDenom, Amount: sdkmath.NewIntFromBigInt(c.amt)}}
+			coin, slip, slipAmt, bonus, oracleAmt, err = pool.SwapOutAmtGivenIn(ctx, orc, &snap, tokens, outDenom, c.fee, acc, c.perpFactor, params)
+		} else {
+			tokens := sdk.Coins{sdk.Coin{Denom: outDenom, Amount: sdkmath.NewIntFromBigInt(c.amt)}}
+			coin, slip, slipAmt, bonus, oracleAmt, err = pool.SwapInAmtGivenOut(ctx, orc, &snap, tokens, inDenom, c.fee, acc, c.perpFactor, params)
+		}
+		if err != nil {
+			return err
+		}
+		amount = coin.Amount
+		return nil
+	})
+	line := map[string]any{"t": "c03.case", "fn": c.fn, "stream": c.stream, "a0": c.a[0].arr(), "a1": c.a[1].arr(), "iIn": c.iIn,
+		"amt": c.amt.String(), "fee": c.fee.BigInt().String(),
+		"params": []string{c.exponent.BigInt().String(), c.multiplier.BigInt().String(), c.portion.BigInt().String(), c.threshold.BigInt().String(), c.perpFactor.BigInt().String()},
+		"res": kind}
+	if kind == "ok" {
+		line["amount"] = amount.String()
+		line["slip"] = slip.BigInt().String()
+		line["slipAmt"] = slipAmt.BigInt().String()
+		line["bonus"] = bonus.BigInt().String()
+		line["oracleAmt"] = oracleAmt.BigInt().String()
+		if bonus.IsPositive() {
+			stats["oracle.bonus"]++
+		} else if bonus.IsNegative() {
+			stats["oracle.wbf"]++
+		}
+		if slipAmt.IsPositive() {
+			stats["oracle.slippage"]++
+		}
+	} else {
+		line["err"] = text
+	}
+	out.Line(line)
+	stats["fn."+c.fn]++
+	stats["res."+c.fn+"."+kind]++
+	stats["stream."+c.stream]++
+}
+
+func decFromRaw(v *big.Int) sdkmath.LegacyDec { return sdkmath.LegacyNewDecFromBigIntWithPrec(v, 18) }
+
+func pick(r *rand.Rand, xs ...string) sdkmath.LegacyDec {
+	return sdkmath.LegacyMustNewDecFromStr(xs[r.Intn(len(xs))])
+}
+
+func randOracleCase(r *rand.Rand) *oCase {
+	c := &oCase{stream: "rand"}
+	if r.Intn(3) == 0 {
+		c.fn = "oin"
+	} else {
+		c.fn = "oout"
+	}
+	w := genWeights(r)
+	if r.Intn(2) == 0 {
+		w = weightPair{1, 1, "1:1"}
+	}
+	wa, wb := scaleWeights(r, w)
+	// prices log-uniform 10^-9 .. 10^9 (raw 10^9 .. 10^27)
+	p0 := logUniform(r, 9, 27)
+	p1 := logUniform(r, 9, 27)
+	if r.Intn(3) == 0 { // a stable pair: equal prices
+		p1 = new(big.Int).Set(p0)
+	}
+	a0 := logUniform(r, 0, 30)
+	var a1 *big.Int
+	if r.Intn(3) != 0 {
+		// value ratio near the target weights: a1 = a0*p0/p1 * (w1/w0) * jitter(0.1..10)
+		a1 = new(big.Int).Mul(a0, p0)
+		a1.Mul(a1, wb).Div(a1, wa).Div(a1, p1)
+		j := int64(10 + r.Intn(991))
+		a1.Mul(a1, big.NewInt(j)).Div(a1, big.NewInt(100))
+		if a1.Sign() == 0 {
+			a1 = big.NewInt(1)
+		}
+		if len(a1.String()) > 60 {
+			a1 = logUniform(r, 0, 30)
+		}
+	} else {
+		a1 = logUniform(r, 0, 30)
+	}
+	amts := []*big.Int{a0, a1}
+	ws := []*big.Int{wa, wb}
+	ps := []*big.Int{p0, p1}
+	for i := 0; i < 2; i++ {
+		a := oAsset{amount: amts[i], weight: ws[i], acc: big.NewInt(0), snap: new(big.Int).Set(amts[i]), price: decFromRaw(ps[i])}
+		switch r.Intn(6) {
+		case 0:
+			a.ext = decFromRaw(new(big.Int).Add(pow10(17), randBelow(r, new(big.Int).Mul(pow10(18), big.NewInt(50)))))
+		default:
+			a.ext = pick(r, "1", "1", "1", "2", "5", "10", "100", "0.5", "1.5")
+		}
+		if r.Intn(8) == 0 { // accounted balance: book balance plus liabilities
+			a.acc = new(big.Int).Add(amts[i], randBelow(r, new(big.Int).Add(amts[i], big.NewInt(1))))
+		}
+		if r.Intn(8) == 0 { // the snapshot differs from the live pool by up to 10 %
+			d := new(big.Int).Div(amts[i], big.NewInt(10))
+			a.snap = new(big.Int).Add(new(big.Int).Sub(amts[i], d), randBelow(r, new(big.Int).Add(new(big.Int).Mul(d, big.NewInt(2)), big.NewInt(1))))
+		}
+		c.a[i] = a
+	}
+	c.iIn = r.Intn(2)
+	c.fee = genFee(r)
+	c.exponent = pick(r, "2.5", "2.5", "2.5", "1", "2", "3.5", "0.5")
+	c.multiplier = pick(r, "0.0005", "0.0005", "0.0005", "0", "0.002", "0.02", "0.3")
+	c.portion = pick(r, "0.5", "0.5", "1", "0", "0.1")
+	c.threshold = pick(r, "0.3", "0.3", "0.05", "0", "0.01")
+	c.perpFactor = pick(r, "1", "1", "1", "0.5", "0")
+	resIn := c.a[c.iIn].amount
+	resOut := c.a[1-c.iIn].amount
+	// smallest trade whose resized (amount / externalLiquidityRatio) counterpart is worth a few base
+	// units of the other asset: below it the balancer leg returns "amount is zero"
+	ext := c.a[1-c.iIn].ext.BigInt()
+	pi, po := c.a[c.iIn].price.BigInt(), c.a[1-c.iIn].price.BigInt()
+	floorAmt := big.NewInt(0)
+	if r.Intn(4) != 0 {
+		num, den := po, pi
+		if c.fn == "oin" {
+			num, den = pi, po
+		}
+		floorAmt = new(big.Int).Mul(big.NewInt(int64(2+r.Intn(20))), ext)
+		floorAmt.Mul(floorAmt, num).Div(floorAmt, den).Div(floorAmt, pow10(18))
+	}
+	if c.fn == "oout" {
+		switch r.Intn(5) {
+		case 0:
+			c.amt = logUniformBelow(r, new(big.Int).Mul(resIn, big.NewInt(10)))
+		default:
+			c.amt = logUniformBelow(r, resIn)
+		}
+		if floorAmt.Cmp(resIn) < 0 {
+			c.amt.Add(c.amt, floorAmt)
+		}
+	} else {
+		c.amt = logUniformBelow(r, new(big.Int).Sub(resOut, big.NewInt(1)))
+		if floorAmt.Cmp(resOut) < 0 {
+			c.amt.Add(c.amt, floorAmt)
+			if c.amt.Cmp(resOut) >= 0 {
+				c.amt = new(big.Int).Sub(resOut, big.NewInt(1))
+			}
+		}
+		if r.Intn(40) == 0 {
+			c.amt = new(big.Int).Sub(resOut, big.NewInt(int64(r.Intn(3))))
+		}
+		if c.amt.Sign() < 0 {
+			c.amt = big.NewInt(0)
+		}
+	}
+	return c
+}
+
+func boundaryOracleCases(r *rand.Rand) []*oCase {
+	var cs []*oCase
+	for i := 0; i < 150; i++ {
+		c := randOracleCase(r)
+		c.stream = "boundary"
+		switch i % 15 {
+		case 0:
+			c.a[c.iIn].price = sdkmath.LegacyZeroDec()
+		case 1:
+			c.a[1-c.iIn].price = sdkmath.LegacyZeroDec()
+		case 2:
+			c.a[1-c.iIn].ext = sdkmath.LegacyZeroDec()
+		case 3:
+			c.amt = big.NewInt(0)
+		case 4:
+			c.amt = big.NewInt(1)
+		case 5:
+			c.fee = sdkmath.LegacyOneDec()
+		case 6:
+			c.a[0].amount = big.NewInt(0)
+			c.a[0].snap = big.NewInt(0)
+		case 7:
+			c.a[1].weight = big.NewInt(0)
+		case 8: // the whole out-reserve at the oracle price
+			c.fn = "oin"
+			c.amt = new(big.Int).Set(c.a[1-c.iIn].amount)
+		case 9:
+			c.a[0].amount = pow10(60)
+			c.a[0].snap = pow10(60)
+		case 10:
+			c.multiplier = sdkmath.LegacyMustNewDecFromStr("100")
+		case 11:
+			c.a[1-c.iIn].ext = sdkmath.LegacyMustNewDecFromStr("0.000000000000000001")
+		case 12:
+			c.a[0].snap = big.NewInt(0)
+			c.a[1].snap = big.NewInt(0)
+		case 13: // a very lopsided pool: weight distance near its maximum
+			c.a[1].amount = big.NewInt(1)
+			c.a[1].snap = big.NewInt(1)
+		}
+		cs = append(cs, c)
+	}
+	return cs
 }
